@@ -193,6 +193,21 @@ def c14(res, tier, seed):
                     calls.append(("hash.%s(%d, %d)" % (fn2, o2, l2), {"fn": fn2, "o": o2, "l": l2, "type": "s" if fn2 in ("md5", "sha1", "sha256") else "i", "range": True}))
                     continue
             calls.append(gen_call(r, n))
+        GRID_FNS = ["mean", "entropy", "deviation", "percentage", "count", "mode", "md5", "crc32", "checksum32", "sha256", "sha1"]
+        if si < len(GRID_FNS) * (1 if tier == "quick" else 4) and n >= 4:
+            # systematic part: one function x a grid of ranges - whole buffer, clipped at the end, starting at / past the end, empty
+            fn = GRID_FNS[si % len(GRID_FNS)]
+            calls = []
+            for (o, l) in [(0, n), (3, n), (0, n + 5), (n - 1, 2), (n, 1), (n, 0), (1, n - 1), (n - 2, 5), (0, 0), (2, 1)]:
+                if fn in ("count", "percentage"):
+                    b = data[0]
+                    calls.append(("math.%s(%d, %d, %d)" % (fn, b, o, l), {"fn": fn, "byte": b, "o": o, "l": l, "type": "i" if fn == "count" else "f", "range": True}))
+                elif fn == "deviation":
+                    calls.append(("math.deviation(%d, %d, 64.0)" % (o, l), {"fn": "deviation", "mean": 64.0, "o": o, "l": l, "type": "f", "range": True}))
+                elif fn in ("mean", "entropy", "mode"):
+                    calls.append(("math.%s(%d, %d)" % (fn, o, l), {"fn": fn, "o": o, "l": l, "type": "i" if fn == "mode" else "f", "range": True}))
+                else:
+                    calls.append(("hash.%s(%d, %d)" % (fn, o, l), {"fn": fn, "o": o, "l": l, "type": "s" if fn in ("md5", "sha1", "sha256") else "i", "range": True}))
         src = PRE + "\n".join('rule c%d { condition: console.log("c%d=", %s) }' % (i, i, txt) for i, (txt, d) in enumerate(calls))
         lines += ["note s%d" % si, "compiler 0", "add 0 - " + yv.hx(src.encode("latin-1")), "getrules 0 0", "cdestroy 0", "scanner 0 0", "data 1 " + yv.hx(data)]
         lines.append("scan 0 1 %s - -" % (("blocks " + spec) if spec else "mem -"))
